@@ -324,6 +324,49 @@ func genC13(r *Rand, tier, profile string) *Case {
 	return finishLife(c, ts, kOf)
 }
 
+// C13 variant "restart": the hosting node's process dies and is started again (same node id)
+func genC13Restart(r *Rand, tier, profile string) *Case {
+	c := &Case{Profile: "wills-restart", Knobs: map[string]int64{}}
+	nodes := r.PickInt([]int{2, 2, 3})
+	c.Knobs["nodes"] = int64(nodes)
+	gossipKnobs(r, c)
+	var ts []tstep
+	t := int64(1)
+	willTopic := r.Pick([]string{"w", "w/a", "w/a/b"})
+	nw := r.Range(1, 4)
+	dnode := r.Intn(nodes)
+	for i := 1; i <= nw; i++ {
+		f := r.Pick([]string{"w/#", "#", willTopic, "w/+", "z/#"})
+		wn := r.Intn(nodes)
+		if r.Bool(0.6) {
+			wn = (dnode + 1 + r.Intn(nodes-1)) % nodes // mostly on nodes that stay up
+		}
+		ts = append(ts, tstep{t, Step{K: "connect", C: i, N: wn, S: fmt.Sprintf("watch%d", i), U: "u", T: "p", I: 3000}})
+		ts = append(ts, tstep{t + 4, Step{K: "sub", C: i, L: []string{f}, QL: []int{r.Intn(3)}, I: 1}})
+		t += 11
+	}
+	k := int64(r.PickInt([]int{5, 30}))
+	t += 20
+	ts = append(ts, tstep{t, Step{K: "connect", C: 20, N: dnode, S: "dying", U: "u", T: "p", I: k, L: []string{willTopic, "will1"}, Q: r.Intn(3), F: r.Bool(0.3)}})
+	t += 30
+	ts = append(ts, tstep{t, Step{K: "settle"}})
+	t += settleDur + int64(r.Range(10, int(k*800)))
+	quiet := r.Bool(0.4)
+	down := int64(r.Range(50, 1500))
+	if !quiet {
+		down = int64(r.Range(2000, 16000))
+		if r.Bool(0.4) {
+			c.Knobs["leave_base_ms"] = int64(r.PickInt([]int{300, 500, 800}))
+			c.Knobs["leave_spread_ms"] = 300
+			down = c.Knobs["leave_base_ms"] + 300 + int64(r.Range(20, 900))
+		}
+	}
+	ts = append(ts, tstep{t, Step{K: "restartnode", N: dnode, I: down, G: quiet}})
+	t += down + 16000
+	ts = append(ts, tstep{t, Step{K: "sleep", I: 10000}})
+	return finishLife(c, ts, map[int]int64{20: k})
+}
+
 func judgeWills(w *world) {
 	endMs := w.nowMs()
 	dying := w.clients[20]
@@ -390,6 +433,9 @@ func judgeWills(w *world) {
 				}
 			}
 			attrs := map[string]string{"cause": f.cause, "same_mount": fmt.Sprint(cl.mount == dying.mount), "same_node": fmt.Sprint(cl.node == dying.node)}
+			if f.restart != "" {
+				attrs["host_restarted"] = f.restart
+			}
 			if st, stopped := w.stopAt[dying.node]; stopped && f.cause != "stopnode" {
 				attrs["node_died_after_session_end"] = fmt.Sprint(st >= f.causeAt)
 				// the host publishes the will after it has removed (and started to gossip the removal
@@ -420,7 +466,7 @@ func judgeWills(w *world) {
 				}
 				attrs["removal_reached_watcher_node"] = fmt.Sprint(reached)
 			}
-			if f.cause == "stopnode" {
+			if f.cause == "stopnode" && f.restart == "" {
 				lo, hi := int64(1<<62), int64(0)
 				for k, at := range w.leaveAt {
 					if k[1] == dying.node {
@@ -1161,6 +1207,10 @@ func init() {
 		Rule: "a case = 1-3 nodes, a chain of 2-4 connections sharing one client id on the same or different nodes (each CONNECT issued once the accepting node holds the earlier session's record), each session subscribing and later pinging / subscribing / disconnecting / losing its link at PRNG times, gossip loss/dup/delay; settle; publishes towards every session of the chain; distinct by hash of the scenario",
 		Real: e1Real, Stub: e1Stub,
 		Assume: []string{"a displaced session's PINGREQ is judged only if it was sent after its hosting node had merged the successor's record; a node holding both records as live at that moment is reported as takeover-ambiguous", "clocks are synchronised in this profile"}})
+	register(&Check{ID: "C13", Variant: "restart", Level: "exploration", Build: "maporder", Gen: genC13Restart, Run: runC13, QuickS: 12, ThoroughS: 200,
+		Rule: "variant for the cause 'failure of its hosting node' when the node comes back: 2-3 nodes, a session with a will and 1-4 watchers (mostly on the other nodes), a settle, then the hosting node's process dies and is started again from its data directory (same node id) 50 ms - 16 s later, before or after its peers were told; every watcher that stayed connected receives the will exactly once; non-trivial when >=1 watcher judged",
+		Real: e1Real, Stub: e1Stub,
+		Assume: []string{"a process restart keeps the node id", "a leave notification that is due after the process is back is not delivered (memberlist refutes the suspicion)"}})
 	register(&Check{ID: "C13", Level: "exploration", Build: "maporder", Gen: genC13, Run: runC13, QuickS: 30, ThoroughS: 480,
 		Rule: "a case = 1-3 nodes, a session with a will (topic of 1-3 levels, QoS 0-2, retain or not), 1-4 watchers with exact/wildcard/non-matching filters (one possibly in another mount point) placed over the nodes, a settle, then one termination cause (DISCONNECT, cut, close, silence, second CONNECT, hosting-node stop); judged per surviving watcher; non-trivial when >=1 watcher judged; distinct by hash of the scenario",
 		Real: e1Real, Stub: e1Stub,
